@@ -166,13 +166,19 @@ def collect_af(res, rng, nruns, max_cases):
                 steps.append(dict(rec)); rec.clear()
             return out
         tr.advance_position, tr.propagate_electronics, tr.continue_simulating, tr.gamma_collapse = advance_position, propagate_electronics, continue_simulating, gamma_collapse
+        reentry = None
         try:
+            if it % 2 == 1:
+                # stopped half way and entered again on the same object (as a clone or a continued run does)
+                tr.duration["max_steps"] = nsteps // 2; tr.simulate(); reentry = len(steps)
+                tr.duration["max_steps"] = nsteps; tr.restarting = True
             tr.simulate()
         except AssertionError:
             pass
         hopsteps = [i for i, s_ in enumerate(steps) if s_["before"][3] != s_["after"][3]]
         collsteps = [i for i, s_ in enumerate(steps) if s_["coll"]]
-        picks = sorted(set([0, 1] + rng.sample(range(len(steps)), min(len(steps), 5)) + hopsteps[:3] + collsteps[:2])) if steps else []
+        picks = sorted(set([0, 1] + rng.sample(range(len(steps)), min(len(steps), 5)) + hopsteps[:3] + collsteps[:2] + ([reentry, reentry + 1] if reentry else []))) if steps else []
+        if reentry and reentry < len(steps): res.count("fullstep-afssh/first-pass-after-re-entry")
         for i in picks:
             if i >= len(steps): continue
             s_ = steps[i]
